@@ -161,6 +161,90 @@ def corpus_cases():
     return out
 
 
+# ---------------------------------------------------------------- process-level sequences
+def tree_atoms(t, out):
+    if isinstance(t, str):
+        out.add(t)
+    else:
+        for x in t:
+            tree_atoms(x, out)
+    return out
+
+
+def quantified_vars(t, out):
+    if isinstance(t, list):
+        if len(t) >= 2 and t[0] == "forall" and isinstance(t[1], list):
+            out.update(x for x in t[1] if isinstance(x, str) and x.startswith("?"))
+        for x in t:
+            quantified_vars(x, out)
+    return out
+
+
+def subst_tree(t, m):
+    if isinstance(t, str):
+        return m.get(t, t)
+    return [subst_tree(x, m) for x in t]
+
+
+def rename_of(rng, tree):
+    """a renaming of the parameters of one action (fresh names, or a permutation of the parameters of one type) together
+    with the domain text whose action is renamed the same way - by the generator, on the token tree"""
+    idx = [i for i, it in enumerate(tree) if isinstance(it, list) and it and it[0] == ":action"]
+    rng.shuffle(idx)
+    for i in idx:
+        a = tree[i]
+        params = [x for x in a[3] if x.startswith("?")]
+        if not params or quantified_vars(a, set()) & set(params):
+            continue
+        used = tree_atoms(tree, set())
+        fresh = [n for n in ("?r%d" % k for k in range(40)) if n not in used]
+        types = {}
+        toks = a[3]
+        pend = []
+        for k, x in enumerate(toks):            # parameter -> type (grouped declarations: p q - t)
+            if x.startswith("?"):
+                pend.append(x)
+            elif x != "-":
+                for q in pend:
+                    types[q] = x
+                pend = []
+        same = [[q for q in params if types.get(q) == types.get(p0)] for p0 in params]
+        same = [g for g in same if len(g) >= 2]
+        r = rng.random()
+        if same and r < 0.3:
+            g = rng.choice(same)
+            x, y = rng.sample(g, 2)
+            mapping, kind = {x: y, y: x}, "swap"
+        elif r < 0.65 or len(params) == 1:
+            mapping, kind = {q: fresh[k] for k, q in enumerate(params)}, "all-fresh"
+        else:
+            q = rng.choice(params)
+            mapping, kind = {q: fresh[0]}, "one-fresh"
+        new_tree = list(tree)
+        new_tree[i] = subst_tree(a, mapping)
+        return {"action": a[1], "mapping": mapping, "kind": kind, "renamed_text": G.render(new_tree)}
+    return None
+
+
+def seq_cases(rng, tier, plain):
+    """sequence cases are built on generated 'plain' worlds (constants representable, probes present)"""
+    n = {"quick": 8, "thorough": 60}[tier]
+    pool = [c for c in plain if c["kind"] == "plain" and c.get("tree")]
+    out = []
+    for c in rng.sample(pool, min(n, len(pool))):
+        other = rng.choice([o for o in pool if o is not c] or pool)
+        out.append({"kind": "sequence", "domain_text": c["domain_text"], "objects": c["objects"], "probes": c["probes"][:5],
+                    "features": c["features"], "klass": c.get("klass"), "witness_of": None,
+                    "other_text": other["domain_text"], "other_objects": other["objects"],
+                    "rename": rename_of(rng, c["tree"])})
+    return out
+
+
+def seq_job(c):
+    return {"op": "c08.roundtrip_seq", "domain_text": c["domain_text"], "other_text": c["other_text"], "rename": c["rename"],
+            "probes": [{k: p[k] for k in ("action", "args", "problem_text", "perm_seed")} for p in c["probes"]]}
+
+
 # ---------------------------------------------------------------- jobs and literals
 def job_of(case):
     if "domain_path" in case:
@@ -301,6 +385,50 @@ def run(args):
                     else:
                         stats["app_raised"] += 1
                     stats["succ_returned"] += 1 if "value" in b["succ0"] else 0
+    # process-level sequences: one exporter, one Domain object, one output path, exported again and again
+    if args.replay and "stage" not in data["input"]:
+        seqs = []
+    elif args.replay:
+        seqs = [data["input"]["case"]]
+        cases_in = []
+    else:
+        seqs = seq_cases(rng, args.tier, cases_in)
+    seq_stats = {"cases": len(seqs), "stages": {}, "renames": {}, "stage_units": 0}
+    if seqs:
+        sres = run_impl([seq_job(c) for c in seqs], hashseed=hashseeds[-1], nproc=min(8, len(seqs)))
+        slits, sunits, srecs = [], [], []
+        for c, r in zip(seqs, sres):
+            if "raised" in r:
+                raise RuntimeError("driver failure: %r" % (r,))
+            if c["rename"]:
+                seq_stats["renames"][c["rename"]["kind"]] = seq_stats["renames"].get(c["rename"]["kind"], 0) + 1
+            for st in r.get("stages", []):
+                cs = dict(c, domain_text=st["text"])
+                if st["stage"] == "other-domain":
+                    cs = dict(cs, probes=[], objects=c.get("other_objects", []))
+                lit, u = case_literal(cs, st)
+                slits.append(lit)
+                sunits.append(u)
+                seq_stats["stages"][st["stage"]] = seq_stats["stages"].get(st["stage"], 0) + 1
+                for k in range(u):
+                    unit = "rejected" if u == 1 else (UNIT_NAMES[k] if k < NFIX else "probe %d" % (k - NFIX))
+                    inp = {"case": {kk: vv for kk, vv in c.items() if kk != "tree"}, "stage": st["stage"], "unit": unit,
+                           "hashseed": hashseeds[-1],
+                           "implementation": {kk: st.get(kk) for kk in ("vocab0", "vocab1", "vocab2", "x1", "x2", "parse_raised",
+                                                                        "export_raised", "reparse_raised", "second_raised", "cfg")},
+                           "probe": (dict(cs["probes"][k - NFIX], result=st["probes"][k - NFIX]) if k >= NFIX and u > 1 else None)}
+                    srecs.append({"lit": lit, "input": inp, "nontrivial": u > 1 and st["stage"] != "first",
+                                  "witness_of": None, "klass": c.get("klass")})
+        sverdicts, sinfo = run_case_shards(PROP + "/seq", "Corr.C08", slits, shard_size=8, units=sunits, header_extra=HEADER,
+                                           max_bytes=110_000)
+        info_total["shards"] += sinfo["shards"]
+        info_total["shard_errors"] += sinfo["shard_errors"]
+        info_total["cmd"] = info_total["cmd"] or sinfo["cmd"]
+        all_cases += srecs
+        all_verdicts += sverdicts
+        seq_stats["stage_units"] = len(srecs)
+        seq_stats["verdicts"] = {ch: sverdicts.count(ch) for ch in set(sverdicts)}
+    stats["sequences"] = seq_stats
     if info_total["shard_errors"]:
         rep.notes.append({"shard_errors": [{"file": e["file"], "rc": e["rc"], "out": e["out"][-400:]} for e in info_total["shard_errors"][:5]]})
     decide(rep, PROP, "Corr.C08", all_cases, all_verdicts, info_total, explain_expr="explain %s", header_extra=HEADER,
